@@ -1,9 +1,764 @@
--- line-protocol handler of property C12 (stub: nothing modelled yet)
+-- line-protocol handler of property C12 (serialization round trip); op lines mirror harness/src/bin/c12.rs
 import Winter.Drv.Util
+import Winter.Model.Serde
 
 namespace Drv.C12
+open Model Model.Serde
 
-def handle (_toks : List String) : String := "-"
+-- ------------------------------------------------------------------------------------------------
+-- value text parser
+
+inductive PR (α : Type) where
+  | ok (a : α) (rest : List Char)
+  | reject      -- the constructor refuses the value
+  | bad         -- syntax error
+  | skip        -- not modelled (needs the prover / a hash function)
+
+abbrev Parser (α : Type) := List Char → PR α
+
+def Parser.pure (a : α) : Parser α := fun cs => .ok a cs
+def Parser.bind (p : Parser α) (f : α → Parser β) : Parser β := fun cs =>
+  match p cs with
+  | .ok a r => f a r
+  | .reject => .reject
+  | .bad => .bad
+  | .skip => .skip
+instance : Monad Parser where
+  pure := Parser.pure
+  bind := Parser.bind
+
+def pReject : Parser α := fun _ => .reject
+def pBad : Parser α := fun _ => .bad
+def pSkip : Parser α := fun _ => .skip
+
+def pChar (c : Char) : Parser Unit
+  | d :: r => if c = d then .ok () r else .bad
+  | [] => .bad
+
+def pPeek : Parser (Option Char)
+  | [] => .ok none []
+  | c :: r => .ok (some c) (c :: r)
+
+def digitsAux : List Char → Nat → Nat → Nat × Nat × List Char
+  | c :: r, acc, k => if c.isDigit then digitsAux r (acc * 10 + (c.toNat - 48)) (k + 1) else (acc, k, c :: r)
+  | [], acc, k => (acc, k, [])
+
+def pNum : Parser Nat := fun cs =>
+  let (v, k, r) := digitsAux cs 0 0
+  if k = 0 then .bad else .ok v r
+
+/-- a number that must fit the given number of bits (the harness rejects others) -/
+def pNumBits (bits : Nat) : Parser Nat := do
+  let v ← pNum
+  if v < 2 ^ bits then pure v else pReject
+
+def wordAux : List Char → List Char → List Char × List Char
+  | c :: r, acc => if c.isAlphanum then wordAux r (c :: acc) else (acc.reverse, c :: r)
+  | [], acc => (acc.reverse, [])
+
+def pWord : Parser String := fun cs =>
+  let (w, r) := wordAux cs []
+  .ok (String.ofList w) r
+
+def hexAux : List Char → List Nat → Option (List Nat × List Char)
+  | a :: b :: r, acc =>
+    match hexVal a, hexVal b with
+    | some x, some y => hexAux r ((16 * x + y) :: acc)
+    | some _, none => none
+    | none, _ => some (acc.reverse, a :: b :: r)
+  | [a], acc => if (hexVal a).isSome then none else some (acc.reverse, [a])
+  | [], acc => some (acc.reverse, [])
+
+/-- `x<hex>` -/
+def pXBytes : Parser Bytes := do
+  pChar 'x'
+  fun cs => match hexAux cs [] with
+    | some (bs, r) => .ok bs r
+    | none => .bad
+
+def pListAux (p : Parser α) : Nat → List α → Parser (List α)
+  | 0, _ => pBad
+  | fuel + 1, acc => do
+    let x ← p
+    let c ← pPeek
+    if c = some ']' then do pChar ']'; pure (x :: acc).reverse
+    else do pChar ','; pListAux p fuel (x :: acc)
+
+/-- `[a,b,c]` -/
+def pList (p : Parser α) : Parser (List α) := fun cs =>
+  match cs with
+  | '[' :: ']' :: r => .ok [] r
+  | '[' :: r => pListAux p (r.length + 1) [] r
+  | _ => .bad
+
+/-- `N` | `S<v>` -/
+def pOpt (p : Parser α) : Parser (Option α) := fun cs =>
+  match cs with
+  | 'N' :: r => .ok none r
+  | 'S' :: r => (do let x ← p; pure (some x)) r
+  | _ => .bad
+
+def xhex (bs : Bytes) : String := "x" ++ String.join (bs.map hexByte)
+
+def showList (f : α → String) (xs : List α) : String := "[" ++ ",".intercalate (xs.map f) ++ "]"
+
+def showOpt (f : α → String) : Option α → String
+  | none => "N"
+  | some x => "S" ++ f x
+
+-- ------------------------------------------------------------------------------------------------
+-- a type of the menu: codec + text syntax + equality + the model of `Ord`
+
+structure AnyCodec where
+  α : Type
+  c : Codec α
+  parse : Parser α
+  shw : α → String
+  beq : α → α → Bool
+  cmp : α → α → Ordering := fun _ _ => .eq
+  field : Option FieldImpl := none
+
+def natCmp (a b : Nat) : Ordering := compare a b
+
+def acUint (n : Nat) : AnyCodec where
+  α := Nat
+  c := uint n
+  parse := pNumBits (8 * n)
+  shw := toString
+  beq := fun a b => a == b
+  cmp := natCmp
+
+def acUsize : AnyCodec := { acUint 8 with c := usize }
+
+def acBool : AnyCodec where
+  α := Bool
+  c := Serde.bool
+  parse := fun cs => match cs with
+    | 'T' :: r => .ok true r
+    | 'F' :: r => .ok false r
+    | _ => .bad
+  shw := fun b => if b then "T" else "F"
+  beq := fun a b => a == b
+  cmp := cmpBool
+
+def acUnit : AnyCodec where
+  α := Unit
+  c := Serde.unit
+  parse := pChar 'U'
+  shw := fun _ => "U"
+  beq := fun _ _ => true
+
+def acStr : AnyCodec where
+  α := Bytes
+  c := str
+  parse := do
+    let bs ← pXBytes
+    if validUtf8 bs then pure bs else pReject
+  shw := xhex
+  beq := fun a b => a == b
+  cmp := cmpList natCmp
+
+def acBytes : AnyCodec where
+  α := Bytes
+  c := vec (uint 1)
+  parse := pXBytes
+  shw := xhex
+  beq := fun a b => a == b
+  cmp := cmpList natCmp
+
+def acOpt (A : AnyCodec) : AnyCodec where
+  α := Option A.α
+  c := option A.c
+  parse := pOpt A.parse
+  shw := showOpt A.shw
+  beq := fun a b => match a, b with
+    | none, none => true
+    | some x, some y => A.beq x y
+    | _, _ => false
+  cmp := cmpOption A.cmp
+
+def listBeq (f : α → α → Bool) : List α → List α → Bool
+  | [], [] => true
+  | a :: as, b :: bs => f a b && listBeq f as bs
+  | _, _ => false
+
+def acVec (A : AnyCodec) : AnyCodec where
+  α := List A.α
+  c := vec A.c
+  parse := pList A.parse
+  shw := showList A.shw
+  beq := listBeq A.beq
+  cmp := cmpList A.cmp
+
+def acArr (n : Nat) (A : AnyCodec) : AnyCodec where
+  α := List A.α
+  c := array n A.c
+  parse := do
+    let l ← pList A.parse
+    if l.length = n then pure l else pReject
+  shw := showList A.shw
+  beq := listBeq A.beq
+  cmp := cmpList A.cmp
+
+/-- `a,b` (no parentheses) -/
+def acSeq (A B : AnyCodec) : AnyCodec where
+  α := A.α × B.α
+  c := pair A.c B.c
+  parse := do
+    let x ← A.parse
+    pChar ','
+    let y ← B.parse
+    pure (x, y)
+  shw := fun p => A.shw p.1 ++ "," ++ B.shw p.2
+  beq := fun p q => A.beq p.1 q.1 && B.beq p.2 q.2
+  cmp := cmpPair A.cmp B.cmp
+
+def acParen (A : AnyCodec) : AnyCodec :=
+  { A with
+    parse := do pChar '('; let x ← A.parse; pChar ')'; pure x
+    shw := fun x => "(" ++ A.shw x ++ ")" }
+
+def acTup : List AnyCodec → Option AnyCodec
+  | [] => none
+  | [A] => some A
+  | A :: rest => (acTup rest).map (acSeq A)
+
+def acMap (K V : AnyCodec) : AnyCodec where
+  α := List (K.α × V.α)
+  c := btreeMap K.cmp K.c V.c
+  parse := fun cs =>
+    let entry : Parser (K.α × V.α) := do
+      let k ← K.parse
+      pChar ':'
+      let v ← V.parse
+      pure (k, v)
+    match cs with
+    | '{' :: '}' :: r => .ok [] r
+    | '{' :: r =>
+      -- same shape as a list, with braces
+      let rec go : Nat → List (K.α × V.α) → Parser (List (K.α × V.α))
+        | 0, _ => pBad
+        | fuel + 1, acc => do
+          let x ← entry
+          let c ← pPeek
+          if c = some '}' then do pChar '}'; pure (x :: acc).reverse
+          else do pChar ','; go fuel (x :: acc)
+      match go (r.length + 1) [] r with
+      | .ok l r => .ok (mapFromList K.cmp l) r
+      | .reject => .reject
+      | .bad => .bad
+      | .skip => .skip
+    | _ => .bad
+  shw := fun m => "{" ++ ",".intercalate (m.map (fun kv => K.shw kv.1 ++ ":" ++ V.shw kv.2)) ++ "}"
+  beq := listBeq (fun p q => K.beq p.1 q.1 && V.beq p.2 q.2)
+  cmp := cmpList (cmpPair K.cmp V.cmp)
+
+def acSet (K : AnyCodec) : AnyCodec where
+  α := List K.α
+  c := btreeSet K.cmp K.c
+  parse := do
+    let l ← pList K.parse
+    pure (setFromList K.cmp l)
+  shw := showList K.shw
+  beq := listBeq K.beq
+  cmp := cmpList K.cmp
+
+-- field elements: the text is an integer of the word size, `BaseElement::new` reduces it
+def acElem (F : FieldImpl) : AnyCodec where
+  α := Nat
+  c := elem F
+  parse := do
+    let v ← pNumBits F.wordBits
+    pure (v % F.M)
+  shw := toString
+  beq := fun a b => a == b
+  field := some F
+
+def acQuad (F : FieldImpl) : AnyCodec := acParen (acSeq (acElem F) (acElem F))
+def acCube (F : FieldImpl) : AnyCodec := acParen (acSeq (acElem F) (acSeq (acElem F) (acElem F)))
+
+def acByteDigest (n : Nat) : AnyCodec where
+  α := Bytes
+  c := byteDigest n
+  parse := do
+    let bs ← pXBytes
+    if bs.length = n then pure bs else pReject
+  shw := xhex
+  beq := fun a b => a == b
+
+def acElemDigest (F : FieldImpl) (c : Codec (List Nat)) : AnyCodec where
+  α := List Nat
+  c := c
+  parse := (acArr 4 (acElem F)).parse
+  shw := showList toString
+  beq := fun a b => a == b
+
+def elemKind : String → Option (AnyCodec × Nat)
+  | "f64" => some (acElem F64.impl, 8)
+  | "f62" => some (acElem F62.impl, 8)
+  | "f128" => some (acElem F128.impl, 16)
+  | "q64" => some (acQuad F64.impl, 16)
+  | "c64" => some (acCube F64.impl, 24)
+  | "q62" => some (acQuad F62.impl, 16)
+  | "c62" => some (acCube F62.impl, 24)
+  | "q128" => some (acQuad F128.impl, 32)
+  | _ => none
+
+def digestKind : String → Option AnyCodec
+  | "b32" => some (acByteDigest 32)
+  | "b24" => some (acByteDigest 24)
+  | "e64" => some (acElemDigest F64.impl elemDigest64)
+  | "e62" => some (acElemDigest F62.impl elemDigest62)
+  | _ => none
+
+-- ------------------------------------------------------------------------------------------------
+-- the proof format
+
+def showOptions (o : ProofOptions) : String :=
+  s!"({o.numQueries},{o.blowup},{o.grinding},{o.fieldExt},{o.folding},{o.remDeg})"
+
+def pFext : Parser Nat := do
+  let v ← pNum
+  if v = 1 ∨ v = 2 ∨ v = 3 then pure v else pReject
+
+def pOptions : Parser ProofOptions := do
+  pChar '('
+  let nq ← pNumBits 64
+  pChar ','
+  let bl ← pNumBits 64
+  pChar ','
+  let gr ← pNumBits 32
+  pChar ','
+  let fe ← pFext
+  pChar ','
+  let ff ← pNumBits 64
+  pChar ','
+  let rd ← pNumBits 64
+  pChar ')'
+  let o : ProofOptions := ⟨nq, bl, gr, fe, ff, rd⟩
+  if o.wf then pure o else pReject
+
+def acFext : AnyCodec where
+  α := Nat
+  c := fext
+  parse := pFext
+  shw := toString
+  beq := fun a b => a == b
+
+def acOptions : AnyCodec where
+  α := ProofOptions
+  c := proofOptions
+  parse := pOptions
+  shw := showOptions
+  beq := fun a b => a == b
+
+def showTraceInfo (t : TraceInfo) : String :=
+  s!"({t.main},{t.aux},{t.rands},{t.length},{xhex t.metadata})"
+
+def pTraceInfo : Parser TraceInfo := do
+  pChar '('
+  let m ← pNumBits 64
+  pChar ','
+  let a ← pNumBits 64
+  pChar ','
+  let r ← pNumBits 64
+  pChar ','
+  let l ← pNumBits 64
+  pChar ','
+  let md ← pXBytes
+  pChar ')'
+  let t : TraceInfo := ⟨m, a, r, l, md⟩
+  if t.wf then pure t else pReject
+
+def acTraceInfo : AnyCodec where
+  α := TraceInfo
+  c := traceInfo
+  parse := pTraceInfo
+  shw := showTraceInfo
+  beq := fun a b => a == b
+
+def showContext (c : Context) : String :=
+  s!"({showTraceInfo c.traceInfo},{xhex c.modulus},{showOptions c.options})"
+
+def pContext : Parser Context := do
+  pChar '('
+  let f ← pWord
+  pChar ','
+  let ti ← pTraceInfo
+  pChar ','
+  let o ← pOptions
+  pChar ')'
+  let F? : Option FieldImpl := match f with
+    | "f64" => some F64.impl
+    | "f62" => some F62.impl
+    | "f128" => some F128.impl
+    | _ => none
+  match F? with
+  | none => pBad
+  | some F =>
+    let c : Context := ⟨ti, leBytes F.bytes F.M, o⟩
+    if c.wf then pure c else pReject
+
+def acContext : AnyCodec where
+  α := Context
+  c := context
+  parse := pContext
+  shw := showContext
+  beq := fun a b => a == b
+
+def pCommitments : Parser Bytes := fun cs =>
+  match cs with
+  | 'D' :: r => .ok [] r
+  | _ => (do
+    pChar '('
+    let k ← pWord
+    pChar ','
+    match digestKind k with
+    | none => pBad
+    | some D => do
+      let t ← pList D.parse
+      pChar ','
+      let c ← D.parse
+      pChar ','
+      let f ← pList D.parse
+      pChar ')'
+      pure (commitmentsNew D.c t c f)) cs
+
+def acCommitments : AnyCodec where
+  α := Bytes
+  c := commitments
+  parse := pCommitments
+  shw := xhex
+  beq := fun a b => a == b
+
+def showQueries (q : Queries) : String := s!"({xhex q.values},{xhex q.paths})"
+
+def pQueries : Parser Queries := do
+  pChar '('
+  let ek ← pWord
+  pChar ','
+  let dk ← pWord
+  pChar ','
+  let _depth ← pNumBits 8
+  pChar ','
+  match digestKind dk, elemKind ek with
+  | some D, some (E, _) => do
+    let nodes ← pList (pList D.parse)
+    pChar ','
+    let values ← pList (pList E.parse)
+    pChar ')'
+    match queriesNew E.c D.c nodes values with
+    | some q => pure q
+    | none => pReject
+  | _, _ => pBad
+
+def acQueries : AnyCodec where
+  α := Queries
+  c := queries
+  parse := pQueries
+  shw := showQueries
+  beq := fun a b => a == b
+
+def showOodFrame (f : OodFrame) : String := s!"({xhex f.traceStates},{xhex f.lagrange},{xhex f.evaluations})"
+
+def pOodFrame : Parser OodFrame := fun cs =>
+  match cs with
+  | 'D' :: r => .ok ⟨[], [], []⟩ r
+  | _ => (do
+    pChar '('
+    let ek ← pWord
+    pChar ','
+    match elemKind ek with
+    | none => pBad
+    | some (E, _) => do
+      let ts ← pOpt (do
+        pChar '('
+        let _w ← pNumBits 64
+        pChar ','
+        let cur ← pList E.parse
+        pChar ','
+        let next ← pList E.parse
+        pChar ','
+        let lag ← pOpt (pList E.parse)
+        pChar ')'
+        if cur.length = next.length then pure (cur, next, lag) else pReject)
+      pChar ','
+      let ev ← pOpt (pList E.parse)
+      pChar ')'
+      let st : Option (Bytes × Bytes) ← (match ts with
+        | none => pure (some ([], []))
+        | some (cur, next, lag) => pure (oodSetTraceStates E.c cur next lag))
+      match st with
+      | none => pReject
+      | some (t, l) =>
+        match ev with
+        | none => pure (⟨t, l, []⟩ : OodFrame)
+        | some e =>
+          match oodSetEvaluations E.c e with
+          | none => pReject
+          | some eb => pure (⟨t, l, eb⟩ : OodFrame)) cs
+
+def acOodFrame : AnyCodec where
+  α := OodFrame
+  c := oodFrame
+  parse := pOodFrame
+  shw := showOodFrame
+  beq := fun a b => a == b
+
+def showFriProof (p : FriProof) : String :=
+  let ls := showList (fun (l : FriLayer) => s!"({xhex l.values},{xhex l.paths})") p.layers
+  s!"({ls},{xhex p.remainder},{p.numPartitions})"
+
+def pFriProof : Parser FriProof := fun cs =>
+  match cs with
+  | 'D' :: r => .ok ⟨[], [], 0⟩ r
+  | 'x' :: _ => (do
+    let bs ← pXBytes
+    match friProof.dec bs with
+    | .ok (p, _) => pure p
+    | _ => pReject) cs
+  | _ => .skip   -- built by the FRI prover
+
+def acFriProof : AnyCodec where
+  α := FriProof
+  c := friProof
+  parse := pFriProof
+  shw := showFriProof
+  beq := fun a b => a == b
+
+def showProof (p : Proof) : String :=
+  s!"({showContext p.context},{p.numUniqueQueries},{xhex p.commitments},{showList showQueries p.traceQueries}," ++
+  s!"{showQueries p.constraintQueries},{showOodFrame p.oodFrame},{showFriProof p.friProof},{p.powNonce}," ++
+  s!"{showOpt xhex p.gkrProof})"
+
+/-- `Proof::new_dummy()` -/
+def dummyProof : Proof where
+  context := ⟨⟨1, 0, 0, 8, []⟩, leBytes 8 F64.impl.M, ⟨1, 2, 2, 1, 8, 1⟩⟩
+  numUniqueQueries := 0
+  commitments := []
+  traceQueries := [⟨leBytes 8 1, [0]⟩]
+  constraintQueries := ⟨leBytes 8 1, [0]⟩
+  oodFrame := ⟨[], [], []⟩
+  friProof := ⟨[], [], 0⟩
+  powNonce := 0
+  gkrProof := none
+
+def pProof : Parser Proof := fun cs =>
+  match cs with
+  | 'D' :: r => .ok dummyProof r
+  | 'x' :: _ => (do
+    let bs ← pXBytes
+    match proof.dec bs with
+    | .ok (p, _) => pure p
+    | _ => pReject) cs
+  | _ => (do
+    pChar '('
+    let c ← pContext
+    pChar ','
+    let nuq ← pNumBits 8
+    pChar ','
+    let cm ← pCommitments
+    pChar ','
+    let tq ← pList pQueries
+    pChar ','
+    let cq ← pQueries
+    pChar ','
+    let ood ← pOodFrame
+    pChar ','
+    let fri ← pFriProof
+    pChar ','
+    let nonce ← pNumBits 64
+    pChar ','
+    let gkr ← pOpt pXBytes
+    pChar ')'
+    pure (⟨c, nuq, cm, tq, cq, ood, fri, nonce, gkr⟩ : Proof)) cs
+
+def acProof : AnyCodec where
+  α := Proof
+  c := proof
+  parse := pProof
+  shw := showProof
+  beq := fun a b => a == b
+
+-- ------------------------------------------------------------------------------------------------
+-- type expressions: `vec(opt(u16))`, `map(u32,str)`, `tup(u8,u64,bool)`, `arr3(u16)`, ...
+
+def atom : String → Option AnyCodec
+  | "u8" => some (acUint 1)
+  | "u16" => some (acUint 2)
+  | "u32" => some (acUint 4)
+  | "u64" => some (acUint 8)
+  | "u128" => some (acUint 16)
+  | "usize" => some acUsize
+  | "bool" => some acBool
+  | "unit" => some acUnit
+  | "str" => some acStr
+  | "bytes" => some acBytes
+  | "f64" => some (acElem F64.impl)
+  | "f62" => some (acElem F62.impl)
+  | "f128" => some (acElem F128.impl)
+  | "b32" => some (acByteDigest 32)
+  | "b24" => some (acByteDigest 24)
+  | "e64" => some (acElemDigest F64.impl elemDigest64)
+  | "e62" => some (acElemDigest F62.impl elemDigest62)
+  | "fext" => some acFext
+  | "options" => some acOptions
+  | "traceinfo" => some acTraceInfo
+  | "context" => some acContext
+  | "commitments" => some acCommitments
+  | "queries" => some acQueries
+  | "oodframe" => some acOodFrame
+  | "friproof" => some acFriProof
+  | "proof" => some acProof
+  | _ => none
+
+def fieldOf : String → Option FieldImpl
+  | "f64" => some F64.impl
+  | "f62" => some F62.impl
+  | "f128" => some F128.impl
+  | _ => none
+
+mutual
+def parseTy : Nat → List Char → Option (AnyCodec × List Char)
+  | 0, _ => none
+  | fuel + 1, cs =>
+    let (w, r) := wordAux cs []
+    let name := String.ofList w
+    match r with
+    | '(' :: r =>
+      match parseTys fuel r with
+      | some (args, r) =>
+        let res : Option AnyCodec :=
+          match name, args with
+          | "opt", [A] => some (acOpt A)
+          | "vec", [A] => some (acVec A)
+          | "set", [A] => some (acSet A)
+          | "map", [K, V] => some (acMap K V)
+          | "tup", args => (acTup args).map acParen
+          | "q", [A] => A.field.map acQuad
+          | "c", [A] => A.field.map acCube
+          | _, [A] =>
+            if name.startsWith "arr" then (name.drop 3).toNat?.map (fun n => acArr n A) else none
+          | _, _ => none
+        res.map (fun a => (a, r))
+      | none => none
+    | _ => (atom name).map (fun a => (a, r))
+def parseTys : Nat → List Char → Option (List AnyCodec × List Char)
+  | 0, _ => none
+  | fuel + 1, cs =>
+    match parseTy fuel cs with
+    | some (a, ',' :: r) =>
+      match parseTys fuel r with
+      | some (as, r) => some (a :: as, r)
+      | none => none
+    | some (a, ')' :: r) => some ([a], r)
+    | _ => none
+end
+
+/-- `q(f64)` and `c(f64)` are handled before the generic grammar -/
+def typeOf (s : String) : Option AnyCodec :=
+  match s with
+  | "q(f64)" => some (acQuad F64.impl)
+  | "q(f62)" => some (acQuad F62.impl)
+  | "q(f128)" => some (acQuad F128.impl)
+  | "c(f64)" => some (acCube F64.impl)
+  | "c(f62)" => some (acCube F62.impl)
+  | _ =>
+    match parseTy (s.length + 1) s.toList with
+    | some (a, []) => some a
+    | _ => none
+
+-- ------------------------------------------------------------------------------------------------
+-- operations
+
+def suffix : Bytes := [165, 1, 128]
+
+def opEnc (A : AnyCodec) (text : String) : String :=
+  match A.parse text.toList with
+  | .bad => "bad-op"
+  | .reject => "reject"
+  | .skip => "-"
+  | .ok _ (_ :: _) => "bad-op"
+  | .ok x [] =>
+    if A.c.wpanic x then "wpanic"
+    else
+      let bytes := A.c.enc x
+      let h := hexOf bytes
+      match A.c.dec (bytes ++ suffix) with
+      | .ok (y, rest) =>
+        if A.beq y x && rest == suffix then s!"{h} rt" else s!"{h} ne {A.shw y} {rest.length}"
+      | .err => s!"{h} err"
+      | .eof => s!"{h} eof"
+      | .panic => s!"{h} panic"
+
+def opDec (A : AnyCodec) (h : String) : String :=
+  match unhex h with
+  | none => "bad-op"
+  | some bs =>
+    match A.c.dec bs with
+    | .ok (x, rest) =>
+      let re := if A.c.wpanic x then "wpanic" else hexOf (A.c.enc x)
+      s!"ok {A.shw x} {rest.length} {re}"
+    | .err => "err"
+    | .eof => "eof"
+    | .panic => "panic"
+
+def opVint (v : Nat) : String :=
+  let b := writeUsize v
+  s!"{hexOf b} {b.length}"
+
+/-- `qparse <queries text>` -/
+def opQparse (text : String) : String :=
+  let p : Parser String := do
+    pChar '('
+    let ek ← pWord
+    pChar ','
+    let dk ← pWord
+    pChar ','
+    let depth ← pNumBits 8
+    pChar ','
+    if depth = 0 ∨ depth > 40 then pBad
+    else
+      let ok := dk = "b32" ∨ dk = "b24" ∨ (dk = "e64" ∧ (ek = "f64" ∨ ek = "q64" ∨ ek = "c64"))
+      match (if ok then digestKind dk else none), elemKind ek with
+      | some D, some (E, eb) => do
+        let nodes ← pList (pList D.parse)
+        pChar ','
+        let values ← pList (pList E.parse)
+        pChar ')'
+        match queriesNew E.c D.c nodes values with
+        | none => pReject
+        | some q =>
+          let rows := values.length
+          let cols := (values.headD []).length
+          match queriesParse E.c eb D.c q depth rows cols with
+          | .ok (t, ns) => pure s!"ok {showList (showList E.shw) t} {showList (showList D.shw) ns}"
+          | .err => pure "err"
+          | .eof => pure "eof"
+          | .panic => pure "panic"
+      | _, _ => pBad
+  match p text.toList with
+  | .ok s [] => s
+  | .ok _ _ => "bad-op"
+  | .bad => "bad-op"
+  | .reject => "reject"
+  | .skip => "-"
+
+def handle : List String → String
+  | ["enc", ty, text] =>
+    match typeOf ty with
+    | some A => opEnc A text
+    | none => "-"
+  | ["dec", ty, h] =>
+    match typeOf ty with
+    | some A => opDec A h
+    | none => "-"
+  | ["vint", v] =>
+    match v.toNat? with
+    | some v => opVint v
+    | none => "bad-op"
+  | ["qparse", text] => opQparse text
+  | _ => "-"
 
 end Drv.C12
 
